@@ -1,11 +1,43 @@
+# C07 — peg supply conservation on lock/burn; pause and blacklist stop exports
 LEAN_MODULES = ["Sif.Props.C07"]
 EXTRACT = [{"group": "bridge", "passes": ["bridgefacts"]}]
 FAMILIES = [
     {"name": "bridge_peg", "family": "bridge_peg", "group": "bridge", "driver": "drv_bridge",
-     "n_quick": 150, "n_thorough": 1500, "seeds_thorough": 3},
+     "n_quick": 300, "n_thorough": 2000, "seeds_thorough": 3},
 ]
-RULE = ""
-TRUSTED_BASE = []
-ASSUMPTIONS = []
-UNPROVED = []
-MANIFEST = {"text": "", "note": "", "technique": "Lean 4 proof + differential correspondence (model vs real Go)", "design_ref": "4/C07"}
+RULE = ("bridge_peg: L1 histories of lock / burn / claim / pause / blacklist / fee-receiver / rescue / whitelist messages on the real keepers: "
+        "fee receiver unset and set (also set to the sender, to module accounts), ceth burned with the receiver unset, ceth locked with the receiver "
+        "unset (duplicate-denomination panic), fees below / at / above the floor, amounts above the balance, invalid denominations, chain ids 0 and "
+        "negative, receivers in five spellings (EIP-55, lower, upper, un-prefixed, 0X) and non-addresses, blacklists with several spellings; "
+        "4 repetitions per history. Judged on the implementation's observations: Spec.C07.pegStep (balances, supply, exactly one event), gateOK "
+        "(pause, address-level blacklist, native/pegged), supplyOK (supply = genesis + credits - locks - burns per denomination after every message). "
+        "non-trivial = distinct accepted message, or a gate chk with the bridge paused or the receiver listed")
+TRUSTED_BASE = [
+    "Lean 4.33.0 kernel; axioms propext, Classical.choice, Quot.sound (audited per theorem on every run)",
+    "hand-written Lean model of ProcessLock / ProcessBurn / Lock / Burn / SetPause / SetBlacklist / UpdateCethReceiverAccount / RescueCeth and the used "
+    "part of x/bank, tied by regenerated facts (guards of Lock/Burn and ProcessLock/ProcessBurn, CethSymbol, fee floors, blacklist normalisation) and "
+    "by differential execution against the real keepers",
+    "common.Address.Hex() (EIP-55) is injective on 20-byte addresses: the model compares the 20-byte values where the code compares canonical strings",
+    "baseapp's transaction wrapper reproduced by the harness; account sequences (an event attribute) outside the model; Go harness, drv_bridge parser",
+]
+ASSUMPTIONS = [
+    "module accounts are exactly the blocked recipients (app.go); the ethbridge module account has minter+burner permissions",
+    "blacklist entries reachable by messages / genesis import (stored normalised); raw entries written by an older binary are outside the model",
+]
+UNPROVED = [
+    "events are modelled as the handler's output value: that the Go handler emits no second lock/burn event is tied by the correspondence only "
+    "(x/bank's own 'burn' coin event is a different event and is filtered by its attributes)",
+    "IBC / other modules changing supply are outside 'through the bridge'",
+]
+MANIFEST = {
+    "text": "Lean 4 theorems over a model of the lock/burn path: a successful lock or burn debits the sender by the amount (and the fee in ceth), credits "
+            "the fee to the configured receiver or else the ethbridge module account (incl. Symbol = ceth with no receiver), lowers supply by the amount, "
+            "changes nothing else and yields exactly one event with the message's values; any failure (pause, address-level blacklist, wrong kind of token, "
+            "insufficient funds, panics) changes nothing; per denomination supply + locks + burns = initial supply + approved credits over every history of "
+            "bridge messages (induction). Tied by regenerated facts and differential execution on the real keepers with the predicates evaluated on the "
+            "implementation's balances, supply and events.",
+    "note": "Defect F11 (blacklist compared spellings) reproduced by the check, repaired by fixes/F11.diff (normalise on store and on lookup); model and "
+            "theorems are about the repaired code. Trusted: kernel, hand-written model + correspondence, x/bank as modelled, EIP-55 injectivity.",
+    "technique": "Lean 4 proof + regenerated facts + differential correspondence (model vs real Go keepers)",
+    "design_ref": "4/C07",
+}
